@@ -1,4 +1,5 @@
-//! Program text: `[h=a,b,c :] prog0 | prog1 | prog2`, same syntax as the Lean driver.
+//! Program text: `[at=ceil|ceil-1] [h=a,b,c] [refs=b>l,…] : prog0 | prog1 | prog2`, same syntax as
+//! the Lean driver (except `at=`, which is mapped, see `lean_line`).
 
 #[derive(Clone, Copy, Debug, PartialEq, Eq)]
 pub enum Act {
@@ -9,6 +10,12 @@ pub enum Act {
     Unwrap,
     Send(usize),
     Recv,
+    /// `clone` through a borrowed `&handle`
+    CloneRef,
+    /// `read` through a borrowed `&handle`
+    ReadRef,
+    /// lender: wait for the end of every borrower's program and take the references back
+    Join,
 }
 
 impl Act {
@@ -21,6 +28,9 @@ impl Act {
             Act::Unwrap => "unwrap",
             Act::Send(_) => "send",
             Act::Recv => "recv",
+            Act::CloneRef => "cloneref",
+            Act::ReadRef => "readref",
+            Act::Join => "join",
         }
     }
 
@@ -49,6 +59,9 @@ pub struct Prog {
     pub h: Vec<usize>,
     pub threads: Vec<Vec<Act>>,
     pub start: Start,
+    /// `refs=b>l,…`: thread `b` starts with a shared reference (`&handle`) to the LAST handle of
+    /// thread `l` (sorted by borrower)
+    pub refs: Vec<(usize, usize)>,
 }
 
 impl Prog {
@@ -60,6 +73,7 @@ impl Prog {
         };
         let mut h: Option<Vec<usize>> = None;
         let mut start = Start::Normal;
+        let mut refs: Vec<(usize, usize)> = Vec::new();
         for w in opts.split_whitespace() {
             match w.split_once('=') {
                 Some(("at", "ceil")) => start = Start::Ceil,
@@ -71,6 +85,15 @@ impl Prog {
                             .map(|x| x.parse::<usize>().map_err(|_| format!("bad h value `{x}`")))
                             .collect::<Result<_, _>>()?,
                     )
+                }
+                Some(("refs", v)) => {
+                    for pair in v.split(',') {
+                        let (b, l) = pair.split_once('>').ok_or_else(|| format!("bad refs entry `{pair}`"))?;
+                        refs.push((
+                            b.parse().map_err(|_| format!("bad refs entry `{pair}`"))?,
+                            l.parse().map_err(|_| format!("bad refs entry `{pair}`"))?,
+                        ));
+                    }
                 }
                 Some(("ceil", _)) | Some(("budget", _)) => {
                     return Err(format!("option `{w}` is not supported by loomdrive"))
@@ -89,6 +112,10 @@ impl Prog {
                     "mutate" => Act::Mutate,
                     "unwrap" => Act::Unwrap,
                     "recv" => Act::Recv,
+                    "cloneref" => Act::CloneRef,
+                    "readref" => Act::ReadRef,
+                    "join" => Act::Join,
+                    "countref" => return Err("`countref` is not runnable under loom (ref_count is pub(crate))".into()),
                     "count" => return Err("`count` is not runnable under loom (ref_count is pub(crate))".into()),
                     _ => match w.strip_prefix("send:") {
                         Some(u) => Act::Send(u.parse().map_err(|_| format!("bad send target `{u}`"))?),
@@ -99,8 +126,8 @@ impl Prog {
             threads.push(acts);
         }
         let n = threads.len();
-        if n == 0 || n > 3 {
-            return Err("1 to 3 threads supported (loom MAX_THREADS = 5 including main)".into());
+        if n == 0 || n > 4 {
+            return Err("1 to 4 threads supported (loom MAX_THREADS = 5 including main)".into());
         }
         let h = h.unwrap_or_else(|| vec![1; n]);
         if h.len() != n {
@@ -118,7 +145,56 @@ impl Prog {
                 }
             }
         }
-        Ok(Prog { h, threads, start })
+        refs.sort();
+        let p = Prog { h, threads, start, refs };
+        p.validate()?;
+        Ok(p)
+    }
+
+    pub fn lender_of(&self, b: usize) -> Option<usize> {
+        self.refs.iter().find(|(x, _)| *x == b).map(|(_, l)| *l)
+    }
+
+    pub fn borrowers_of(&self, l: usize) -> Vec<usize> {
+        self.refs.iter().filter(|(_, x)| *x == l).map(|(b, _)| *b).collect()
+    }
+
+    /// Shape rules of the by-reference programs (also used by the shrinker).
+    pub fn validate(&self) -> Result<(), String> {
+        let n = self.threads.len();
+        for (i, (b, l)) in self.refs.iter().enumerate() {
+            if *b >= n || *l >= n || b == l {
+                return Err(format!("refs entry {b}>{l} out of range"));
+            }
+            if self.refs[..i].iter().any(|(x, _)| x == b) {
+                return Err(format!("thread {b} borrows twice"));
+            }
+            if self.lender_of(*l).is_some() {
+                return Err(format!("thread {l} both lends and borrows"));
+            }
+            if self.h[*l] == 0 {
+                return Err(format!("lender {l} has no handle to lend"));
+            }
+        }
+        for (t, th) in self.threads.iter().enumerate() {
+            let joins = th.iter().filter(|a| **a == Act::Join).count();
+            if self.borrowers_of(t).is_empty() {
+                if joins > 0 {
+                    return Err(format!("thread {t} joins but lends nothing"));
+                }
+                continue;
+            }
+            if joins != 1 {
+                return Err(format!("lender {t} needs exactly one `join`"));
+            }
+            // while its handle is lent the lender may only use `&self` methods
+            for a in th.iter().take_while(|a| **a != Act::Join) {
+                if !matches!(a, Act::Read | Act::Clone) {
+                    return Err(format!("lender {t}: only read/clone allowed before `join`"));
+                }
+            }
+        }
+        Ok(())
     }
 
     fn body(&self) -> String {
@@ -127,6 +203,17 @@ impl Prog {
             .map(|t| t.iter().map(Act::text).collect::<Vec<_>>().join(" "))
             .collect::<Vec<_>>()
             .join(" | ")
+    }
+
+    fn refs_text(&self) -> String {
+        if self.refs.is_empty() {
+            String::new()
+        } else {
+            format!(
+                " refs={}",
+                self.refs.iter().map(|(b, l)| format!("{b}>{l}")).collect::<Vec<_>>().join(",")
+            )
+        }
     }
 
     fn h_text(h: &[usize]) -> String {
@@ -141,10 +228,10 @@ impl Prog {
             Start::Ceil => "at=ceil ",
             Start::CeilMinus1 => "at=ceil-1 ",
         };
-        if self.start == Start::Normal && self.h.iter().all(|&x| x == 1) {
+        if self.start == Start::Normal && self.refs.is_empty() && self.h.iter().all(|&x| x == 1) {
             body
         } else {
-            format!("{at}h={} : {}", Self::h_text(&self.h), body)
+            format!("{at}h={}{} : {}", Self::h_text(&self.h), self.refs_text(), body)
         }
     }
 
@@ -162,7 +249,7 @@ impl Prog {
         let p = if self.start == Start::Ceil { c + 1 - k } else { c - k };
         let mut h = self.h.clone();
         h.push(p);
-        format!("ceil={c} h={} : {} | ", Self::h_text(&h), self.body())
+        format!("ceil={c} h={}{} : {} | ", Self::h_text(&h), self.refs_text(), self.body())
     }
 
     /// Removes the phantom thread's (empty) component from a Lean outcome.
@@ -270,7 +357,7 @@ pub fn generate(seed: u64, count: usize) -> Vec<String> {
             }
             _ => {}
         }
-        let p = Prog { h, threads, start: Start::Normal };
+        let p = Prog { h, threads, start: Start::Normal, refs: Vec::new() };
         let line = p.line();
         if !out.contains(&line) {
             out.push(line);
@@ -299,7 +386,62 @@ pub fn generate_ceiling(seed: u64, count: usize) -> Vec<String> {
             continue;
         }
         let start = if rng.below(2) == 0 { Start::Ceil } else { Start::CeilMinus1 };
-        let p = Prog { h: vec![1; n], threads, start };
+        let p = Prog { h: vec![1; n], threads, start, refs: Vec::new() };
+        let line = p.line();
+        if !out.contains(&line) {
+            out.push(line);
+        }
+    }
+    out
+}
+
+/// `count` distinct by-reference programs: one lender (thread 0, one handle) and 2-3 borrowers
+/// over {cloneref, readref, drop, read}; lender = optional read/clone prologue, `join`, then one
+/// of the epilogues {drop, mutate drop, unwrap}.
+pub fn generate_byref(seed: u64, count: usize) -> Vec<String> {
+    const BMENU: [Act; 6] = [Act::CloneRef, Act::CloneRef, Act::ReadRef, Act::Drop, Act::Drop, Act::Read];
+    let mut rng = Rng(seed ^ 0x6279_7265_6621_2121);
+    let mut out: Vec<String> = Vec::new();
+    let mut guard = 0;
+    while out.len() < count && guard < 10_000 {
+        guard += 1;
+        let nb = if rng.below(4) == 0 { 3 } else { 2 };
+        let mut lender: Vec<Act> = Vec::new();
+        match rng.below(4) {
+            0 => lender.push(Act::Read),
+            1 => lender.push(Act::Clone),
+            _ => {}
+        }
+        lender.push(Act::Join);
+        match rng.below(3) {
+            0 => lender.push(Act::Drop),
+            1 => lender.extend([Act::Mutate, Act::Drop]),
+            _ => lender.push(Act::Unwrap),
+        }
+        let mut threads = vec![lender];
+        let maxlen = if nb == 3 { 1 } else { 3 };
+        for _ in 0..nb {
+            let len = 1 + rng.below(maxlen) as usize;
+            let mut b: Vec<Act> = (0..len).map(|_| BMENU[rng.below(6) as usize]).collect();
+            if !b.contains(&Act::CloneRef) && rng.below(2) == 0 {
+                b[0] = Act::CloneRef;
+            }
+            threads.push(b);
+        }
+        if threads.iter().flatten().filter(|a| **a == Act::CloneRef).count() < 2 {
+            continue;
+        }
+        // every clone is a load + CAS retry loop on the one counter: keep the state space small
+        let cloners = threads.iter().flatten().filter(|a| matches!(a, Act::CloneRef | Act::Clone)).count();
+        if cloners > if nb == 3 { 3 } else { 4 } {
+            continue;
+        }
+        let mut h = vec![0; nb + 1];
+        h[0] = 1;
+        let p = Prog { h, threads, start: Start::Normal, refs: (1..=nb).map(|b| (b, 0)).collect() };
+        if p.validate().is_err() {
+            continue;
+        }
         let line = p.line();
         if !out.contains(&line) {
             out.push(line);
